@@ -26,7 +26,7 @@ ASSUMPTIONS = [
     "observable state is vlib.snapshot's snapshot plus the bytes B.read() produces",
 ]
 REQUIRED_LABELS = {
-    "quick": ["pair_same_recipe", "pair_other_type", "pair_clone", "pair_load_twice", "project_pair", "inplace_list_mutation", "reverse_direction", "save_load_a"],
+    "quick": ["pair_same_recipe", "pair_other_type", "pair_clone", "pair_load_twice", "project_pair", "inplace_list_mutation", "reverse_direction", "save_load_a", "nested_mutation"],
     "thorough": ["pair_same_recipe", "pair_other_type", "pair_clone", "pair_load_twice", "project_pair", "inplace_list_mutation", "reverse_direction", "save_load_a"]
     + ["type_" + t for t in build.attachable_types()],
 }
@@ -40,7 +40,11 @@ def exhaustive(tier):
 def plan(tier):
     n, per, k = (16, 100, 12) if tier == "quick" else (16, 1500, 30)
     types = build.attachable_types()
-    return [{"kind": "random", "examples": per, "max_mut": k, "sweep": types[i::n]} for i in range(n)]
+    descs = [{"kind": "random", "examples": per, "max_mut": k, "sweep": types[i::n]} for i in range(n)]
+    # containers with nested objects get their own shards: leaks through shared inner projects / effects
+    for t in ("MetaModule", "MetaModule", "Sampler"):
+        descs.append({"kind": "nested", "type": t, "examples": per, "max_mut": k})
+    return descs
 
 
 def load(data):
@@ -58,12 +62,16 @@ def make_obj(recipe):
 
 
 @st.composite
-def pair_case(draw, max_mut, tname=None):
-    if tname is None and draw(st.integers(0, 3)) == 0:
+def pair_case(draw, max_mut, tname=None, nested=False):
+    if nested:
+        # the module carries an inner project / effect, B comes from the same bytes or a clone, and
+        # the mutations go into the nested object
+        a = {"kind": "synth", "spec": draw(build.module_spec(in_project=False, depth=1, tname=tname).filter(lambda ms: (ms["payload"].get("project") or {}).get("modules") or ms["payload"].get("effect")))}
+    elif tname is None and draw(st.integers(0, 3)) == 0:
         a = {"kind": "project", "spec": draw(build.project_spec(depth=1, max_modules=3, max_patterns=2))}
     else:
         a = {"kind": "synth", "spec": draw(build.module_spec(in_project=False, depth=1, tname=tname))}
-    how = draw(st.sampled_from(["same_recipe", "other", "clone", "load_twice"]))
+    how = draw(st.sampled_from(["clone", "load_twice", "load_twice", "same_recipe"] if nested else ["same_recipe", "other", "clone", "load_twice"]))
     b = None
     if how == "other":
         if a["kind"] == "project":
@@ -81,7 +89,7 @@ def pair_case(draw, max_mut, tname=None):
             e = ["link", draw(st.integers(0, n - 1)), draw(st.integers(0, n - 1)), draw(st.booleans())]
             apply_mut(scratch, e)
         else:
-            e = draw(edits.draw_edit(scratch, focus=draw(st.booleans())))
+            e = draw(edits.draw_edit(scratch, focus=True if nested else draw(st.booleans())))
             edits.apply_edit(scratch, e)
         muts.append(e)
     rev = []
@@ -161,6 +169,8 @@ def run_case(ctx, case):
         flat = repr(e)
         if any("'%s'" % k in flat for k in INPLACE):
             labels.add("inplace_list_mutation")
+        if "'embedded'" in flat or "'effect'" in flat:
+            labels.add("nested_mutation")
     if case["save_load_a"]:
         A = load(A.read())
         labels.add("save_load_a")
@@ -198,6 +208,9 @@ def run_shard(ctx, desc):
         if len(repr(case)) < 1500:
             ctx.sample(case)
 
+    if desc["kind"] == "nested":
+        run_property(ctx, pair_case(desc["max_mut"], tname=desc["type"], nested=True), body, desc["examples"], tag="nested_" + desc["type"], bucket="pair")
+        return
     for t in desc["sweep"]:
         if not run_property(ctx, pair_case(desc["max_mut"], tname=t), body, 6 if ctx.tier == "quick" else 25, tag="sweep_" + t, bucket="pair"):
             return
